@@ -27,9 +27,12 @@ impl NodeId {
         if raw_input.len() > 32 {
             return Err("Input too large");
         }
+        if raw_input.len() < 32 {
+            return Err("Input too small");
+        }
 
         let mut raw: RawNodeId = [0_u8; 32];
-        raw[..std::cmp::min(32, raw_input.len())].copy_from_slice(raw_input);
+        raw.copy_from_slice(raw_input);
 
         Ok(Self { raw })
     }
